@@ -28,6 +28,46 @@ class Ctx:
         self.R = Roles(engine, self.H)
         self.memo = {}
 
+    def validate_anchors(self, pid):
+        """Every function of the frozen anchor table that the rules refer to
+        by name must exist (possibly recognised under a new name); a
+        vanished one makes the analysis inconclusive instead of letting a
+        name comparison silently match nothing."""
+        import json
+        import os
+        import re
+        from ..model import AnalysisError
+        here = os.path.dirname(os.path.abspath(__file__))
+        ap = os.path.join(os.path.dirname(os.path.dirname(here)),
+                          'anchors.json')
+        if not os.path.exists(ap):
+            return
+        canon = json.load(open(ap))['functions']
+        # the property's own module and the rule modules it imports
+        todo = [pid.lower()]
+        mods = set()
+        while todo:
+            m = todo.pop()
+            p = os.path.join(here, m + '.py')
+            if m in mods or not os.path.exists(p):
+                continue
+            mods.add(m)
+            text = open(p).read()
+            todo += re.findall(r'from \.(\w+) import', text)
+            for grp in re.findall(r'from \. import ([\w, ]+)', text):
+                todo += [x.strip().split(' ')[0] for x in grp.split(',')]
+        src = ''.join(open(os.path.join(here, m + '.py')).read()
+                      for m in sorted(mods))
+        quoted = set(re.findall(r"""['"]([A-Za-z_.]+)['"]""", src))
+        for q in canon:
+            cls, _, name = q.rpartition('.')
+            if q in quoted or ('.' + name) in quoted or (
+                    name.startswith('_') and name in quoted):
+                if q not in self.prog.funcs:
+                    raise AnalysisError(
+                        'anchor vanished: function %s (referenced by the '
+                        'rules; no renamed counterpart recognised)' % q)
+
 
 def module_for(pid):
     return importlib.import_module('fbsa.rules.' + pid.lower())
